@@ -24,6 +24,7 @@ import (
 	"runtime"
 	"sort"
 	"sync"
+	"sync/atomic"
 	"testing"
 	"time"
 
@@ -38,7 +39,7 @@ import (
 
 func TestMain(m *testing.M) { ev.Main(m) }
 
-var rec = ev.For("C34", "rapid-drawn programs: 2-4 clients x 6-20 ops (Read/Write of the Value attribute) over 1-2 fresh shared variables of one in-process server, unique write values client*1e6+k, drawn pre-op yields (none/Gosched/0-400us sleep), common start barrier; history (invoke, return on the monotonic clock) judged by porcupine with a per-node register model; non-trivial = two operations of different clients on the same node overlapped in time and at least one of them is a write; distinct by hash of the drawn programs")
+var rec = ev.For("C34", "rapid-drawn programs: 2-4 clients x 6-20 ops (Read/Write of the Value attribute) over 1-2 fresh shared variables of one in-process server, unique write values client*1e6+k (in a third of the cases the writers also supply a SourceTimestamp - far past, 2 s ago, 1 h ahead - or a ServerTimestamp), drawn pre-op yields (none/Gosched/0-400us sleep), common start barrier; history (invoke, return on the monotonic clock) judged by porcupine with a per-node register model; non-trivial = two operations of different clients on the same node overlapped in time and at least one of them is a write; distinct by hash of the drawn programs")
 
 // ---------------------------------------------------------------------------
 // case
@@ -54,6 +55,10 @@ type Op struct {
 	Node  int    `json:"n"`           // index of the shared variable
 	Val   int64  `json:"v,omitempty"` // value written (unique in the case)
 	Yield int    `json:"y"`           // 0 none, 1 Gosched, >=2: sleep (Yield-1)*20us
+	// TS (writes): the written DataValue also carries a SourceTimestamp:
+	// 0 none (value only), 1 far in the past (2001), 2 two seconds ago,
+	// 3 one hour ahead, 4 a ServerTimestamp two seconds ago instead
+	TS int `json:"ts,omitempty"`
 }
 
 // HOp is one recorded operation of the observed history.
@@ -79,11 +84,45 @@ type Case struct {
 
 func initValue(node int) int64 { return -int64(node + 1) }
 
+// counters of the current process (classes only)
+var refused, stampedOK atomic.Int64
+
+// writeStamped writes the Value attribute; ts selects the timestamps the writer supplies.
+func writeStamped(ctx context.Context, c *opcua.Client, n *ua.NodeID, v int64, ts int) (ua.StatusCode, error) {
+	if ts == 0 {
+		return stack.WriteValue(ctx, c, n, v)
+	}
+	dv := &ua.DataValue{EncodingMask: ua.DataValueValue, Value: ua.MustVariant(v)}
+	switch ts {
+	case 1:
+		dv.EncodingMask |= ua.DataValueSourceTimestamp
+		dv.SourceTimestamp = time.Date(2001, 1, 1, 0, 0, int(v%60), 0, time.UTC)
+	case 2:
+		dv.EncodingMask |= ua.DataValueSourceTimestamp
+		dv.SourceTimestamp = time.Now().Add(-2 * time.Second)
+	case 3:
+		dv.EncodingMask |= ua.DataValueSourceTimestamp
+		dv.SourceTimestamp = time.Now().Add(time.Hour)
+	default:
+		dv.EncodingMask |= ua.DataValueServerTimestamp
+		dv.ServerTimestamp = time.Now().Add(-2 * time.Second)
+	}
+	resp, err := c.Write(ctx, &ua.WriteRequest{NodesToWrite: []*ua.WriteValue{{NodeID: n, AttributeID: ua.AttributeIDValue, Value: dv}}})
+	if err != nil {
+		return 0, err
+	}
+	if len(resp.Results) != 1 {
+		return 0, fmt.Errorf("%d results", len(resp.Results))
+	}
+	return resp.Results[0], nil
+}
+
 func genCase(t *rapid.T) Case {
 	var c Case
 	c.Nodes = rapid.IntRange(1, 2).Draw(t, "nodes")
 	nc := rapid.IntRange(2, 4).Draw(t, "clients")
 	writeBias := rapid.IntRange(2, 8).Draw(t, "writeBias") // of 10
+	stamped := rapid.IntRange(0, 2).Draw(t, "stampedWrites") == 0 // a third of the cases: writers supply timestamps
 	for ci := 0; ci < nc; ci++ {
 		n := rapid.IntRange(6, 20).Draw(t, "nops")
 		prog := make([]Op, n)
@@ -94,6 +133,9 @@ func genCase(t *rapid.T) Case {
 				k++
 				o.Kind = kWrite
 				o.Val = int64(ci+1)*1_000_000 + k
+				if stamped {
+					o.TS = rapid.IntRange(0, 4).Draw(t, "ts")
+				}
 			}
 			switch y := rapid.IntRange(0, 9).Draw(t, "yieldKind"); {
 			case y < 5:
@@ -206,15 +248,23 @@ func execute(c Case) (hist []HOp, err error) {
 				h := HOp{Client: ci, Kind: o.Kind, Node: o.Node, Val: o.Val}
 				if o.Kind == kWrite {
 					h.Call = time.Since(base).Nanoseconds()
-					st, err := stack.WriteValue(ctx, cl, ids[o.Node], o.Val)
+					st, err := writeStamped(ctx, cl, ids[o.Node], o.Val, o.TS)
 					h.Ret = time.Since(base).Nanoseconds()
 					switch {
 					case err != nil && isTimeout(err):
 						h.Timeout = true
 					case err != nil:
 						errs[ci] = fmt.Errorf("client %d write: %v", ci, err)
+					case st != ua.StatusOK && o.TS != 0:
+						// a server may refuse a write that carries timestamps: an
+						// unsuccessful operation is not part of the history
+						refused.Add(1)
+						continue
 					case st != ua.StatusOK:
 						errs[ci] = fmt.Errorf("client %d write status %v", ci, st)
+					}
+					if o.TS != 0 {
+						stampedOK.Add(1)
 					}
 				} else {
 					h.Call = time.Since(base).Nanoseconds()
@@ -368,6 +418,25 @@ func judge(c Case, hist []HOp) porcupine.CheckResult {
 // shape computes the non-triviality rule and the evidence classes.
 func shape(c Case, hist []HOp) (nontrivial bool, classes []string) {
 	classes = append(classes, fmt.Sprintf("clients=%d", len(c.Programs)), fmt.Sprintf("nodes=%d", c.Nodes))
+	tsKinds := map[int]bool{}
+	for _, p := range c.Programs {
+		for _, o := range p {
+			if o.Kind == kWrite && o.TS != 0 {
+				tsKinds[o.TS] = true
+			}
+		}
+	}
+	if len(tsKinds) > 0 {
+		classes = append(classes, "has-write-with-timestamp")
+		for k := 1; k <= 4; k++ {
+			if tsKinds[k] {
+				classes = append(classes, fmt.Sprintf("write-timestamp-kind=%d", k))
+			}
+		}
+	}
+	if refused.Swap(0) > 0 {
+		classes = append(classes, "timestamped-write-refused(not-in-history)")
+	}
 	overlap, ww, rw := 0, 0, 0
 	for i := range hist {
 		for j := i + 1; j < len(hist); j++ {
